@@ -54,11 +54,13 @@ static std::unique_ptr<cppcms::service> srv;
 static std::unique_ptr<booster::thread> srv_thread;
 static std::unique_ptr<file_server> direct;   // instance for direct calls, same settings
 static int port = 0;
+static bool unresponsive = false;  // a request got no reply: the event loop is stuck; do not wait 20 s for each further one
 
 static void run_service() { try { srv->run(); } catch(std::exception const &e) { fprintf(stderr,"service::run threw: %s\n",e.what()); abort(); } }
 
 static void stop_service()
 {
+	if(unresponsive) { fflush(stdout); _exit(0); }   // a stuck event loop cannot be shut down
 	direct.reset();
 	if(srv.get()) {
 		srv->shutdown();
@@ -332,7 +334,8 @@ static std::string run(std::vector<std::string> const &w)
 	}
 	if(w[0]=="req" && w.size()>=2 && vh::unhex(w[1],a)) {
 		std::string reply;
-		if(!http_get(a,reply)) return "no-reply";
+		if(unresponsive) return "no-reply (service unresponsive since an earlier request)";
+		if(!http_get(a,reply)) { unresponsive=true; return "no-reply"; }
 		return summarize(reply);
 	}
 	return "bad-op";
